@@ -483,6 +483,7 @@ class SymCtx:
         self.solver.push()
         self.model = None  # a model of the current path condition, when known
         self.eqdec = {}  # decided id equalities: key -> (decision, AST kept alive)
+        self.reuse = False
         self.prefix = prefix
         self.trace = []
         self.known = {}
@@ -593,6 +594,8 @@ class SymCtx:
     # -- variables
     def _var(self, name, sort):
         if name in self.vars:
+            if self.reuse:  # twin runs: the same names denote the same variables
+                return self.vars[name][0]
             raise SymxEngineError(f"variable {name} created twice")
         v = {"int": z3.Int, "bool": z3.Bool, "real": z3.Real}[sort](name)
         self.vars[name] = (v, sort)
@@ -718,6 +721,7 @@ class ConcreteCtx:
         self.stub_hits = {}
         self.seen = set()
         self.seq = {}
+        self.reuse = False
 
     def fresh(self, prefix="a"):
         k = self.seq.get(prefix, 0)
